@@ -31,6 +31,15 @@ struct Fail {
     actual: String,
 }
 
+/// which kinds of disagreement the caller asked for (env REPLAY_ASPECT = comma list of panic, sem, shape, vars, accept;
+/// unset = all): a bounded stand-in run for a property reports only what that property is about
+fn want(aspect: &str) -> bool {
+    match std::env::var("REPLAY_ASPECT") {
+        Ok(v) if !v.is_empty() => v.split(',').any(|a| a == aspect),
+        _ => true,
+    }
+}
+
 fn quiet<T>(f: impl FnOnce() -> T) -> Result<T, String> {
     catch_unwind(AssertUnwindSafe(f)).map_err(|e| {
         if let Some(s) = e.downcast_ref::<String>() {
@@ -1257,6 +1266,16 @@ fn support_named(b: &BDD<NamedSymbol>, out: &mut Vec<String>) {
     }
 }
 
+fn support_syms(b: &BDD<NamedSymbol>, out: &mut Vec<NamedSymbol>) {
+    if let BDD::Choice(t, v, f) = b {
+        if !out.iter().any(|w| w.id == v.id) {
+            out.push(v.clone());
+        }
+        support_syms(t, out);
+        support_syms(f, out);
+    }
+}
+
 /// check the real pipeline (tokenize -> parse -> free variables -> eval) on `src` against the reference meaning of f
 fn check_formula(case: &str, f: &F, src: &str) -> Option<Fail> {
     let mut vars = vec![];
@@ -1272,18 +1291,18 @@ fn check_formula(case: &str, f: &F, src: &str) -> Option<Fail> {
         Ok::<_, String>((pf, r))
     });
     let (pf, r) = match res {
-        Err(p) => return Some(Fail { case: case.into(), expected: format!("tt={}", tts(&want)), actual: p }),
-        Ok(Err(e)) => return Some(Fail { case: case.into(), expected: "accepted formula".into(), actual: format!("Err({e})") }),
+        Err(p) => return if self::want("panic") { Some(Fail { case: case.into(), expected: format!("tt={}", tts(&want)), actual: p }) } else { None },
+        Ok(Err(e)) => return if self::want("accept") { Some(Fail { case: case.into(), expected: "accepted formula".into(), actual: format!("Err({e})") }) } else { None },
         Ok(Ok(x)) => x,
     };
     let got: Vec<bool> = (0..want.len()).map(|row| eval_named(&r, &|n| vars.iter().position(|x| x == n).map_or(false, |p| (row >> p) & 1 == 1))).collect();
-    if got != want {
+    if self::want("sem") && got != want {
         return Some(Fail { case: case.into(), expected: format!("tt={} over {:?}", tts(&want), vars), actual: format!("tt={}", tts(&got)) });
     }
-    if want.iter().all(|x| *x) && *r != BDD::True || want.iter().all(|x| !*x) && *r != BDD::False {
+    if self::want("shape") && got == want && (want.iter().all(|x| *x) && *r != BDD::True || want.iter().all(|x| !*x) && *r != BDD::False) {
         return Some(Fail { case: case.into(), expected: "literal leaf for a constant function".into(), actual: format!("{r:?}") });
     }
-    if !robdd_named(&r, None) {
+    if self::want("shape") && !robdd_named(&r, None) {
         return Some(Fail { case: case.into(), expected: "ordered and reduced".into(), actual: format!("{r:?}") });
     }
     // full variable list: every name of the text exactly once, in id order
@@ -1292,7 +1311,7 @@ fn check_formula(case: &str, f: &F, src: &str) -> Option<Fail> {
     let mut wall = vars.clone();
     allv.sort();
     wall.sort();
-    if allv != wall || !ids_sorted {
+    if self::want("vars") && (allv != wall || !ids_sorted) {
         return Some(Fail { case: case.into(), expected: format!("variable list = every name once, ordered by id: {wall:?}"), actual: format!("{:?}", pf.vars) });
     }
     // free variables: exactly the names with a free occurrence, in id (= first appearance) order
@@ -1300,22 +1319,30 @@ fn check_formula(case: &str, f: &F, src: &str) -> Option<Fail> {
     let mut w2 = wfree.clone();
     gfree.sort();
     w2.sort();
-    if gfree != w2 {
+    if self::want("vars") && gfree != w2 {
         return Some(Fail { case: case.into(), expected: format!("free variables {w2:?}"), actual: format!("{gfree:?}") });
     }
     let mut sup = vec![];
     support_named(&r, &mut sup);
-    if sup.iter().any(|v| !wfree.contains(v)) {
+    if self::want("vars") && sup.iter().any(|v| !wfree.contains(v)) {
         return Some(Fail { case: case.into(), expected: format!("result depends only on free variables {wfree:?}"), actual: format!("{sup:?}") });
     }
     // every free variable has a column index; indices are a bijection onto 0..free
     let idx = quiet(|| pf.free_vars.iter().map(|v| pf.to_free_index(v)).collect::<Vec<_>>());
     match idx {
-        Err(p) => return Some(Fail { case: case.into(), expected: "column index for every free variable".into(), actual: p }),
+        Err(p) => return if self::want("panic") || self::want("vars") { Some(Fail { case: case.into(), expected: "column index for every free variable".into(), actual: p }) } else { None },
         Ok(ix) => {
-            if ix != (0..pf.free_vars.len()).collect::<Vec<_>>() {
+            if self::want("vars") && ix != (0..pf.free_vars.len()).collect::<Vec<_>>() {
                 return Some(Fail { case: case.into(), expected: "free variable i has column i".into(), actual: format!("{ix:?}") });
             }
+        }
+    }
+    // what the table printers do for every node of the result: ask for the column of the variable it tests
+    if self::want("panic") || self::want("vars") {
+        let mut syms = vec![];
+        support_syms(&r, &mut syms);
+        if let Err(p) = quiet(|| syms.iter().map(|v| pf.to_free_index(v)).collect::<Vec<_>>()) {
+            return Some(Fail { case: case.into(), expected: "a column for every variable the result tests (the table printers ask for it)".into(), actual: p });
         }
     }
     None
@@ -1575,7 +1602,7 @@ fn cop(op: CountableOperator) -> &'static str {
 /// case: a text.  The real parser must accept exactly when the reference grammar does, with the same tree.
 fn case_parse(case: &str) -> Option<Fail> {
     let toks = match quiet(|| SymbolicBDD::tokenize(&mut case.as_bytes(), None)) {
-        Err(p) => return Some(Fail { case: case.into(), expected: "tokens or Err".into(), actual: p }),
+        Err(p) => return if self::want("panic") { Some(Fail { case: case.into(), expected: "tokens or Err".into(), actual: p }) } else { None },
         Ok(Err(_)) => return None,
         Ok(Ok(t)) => t,
     };
@@ -1583,10 +1610,10 @@ fn case_parse(case: &str) -> Option<Fail> {
     tick();
     let got = quiet(|| ParsedFormula::new(&mut case.as_bytes(), None).map(|p| p.bdd));
     match got {
-        Err(p) => Some(Fail { case: case.into(), expected: format!("{want:?}"), actual: p }),
+        Err(p) => if self::want("panic") { Some(Fail { case: case.into(), expected: format!("{want:?}"), actual: p }) } else { None },
         Ok(g) => {
             let g = g.ok();
-            if g != want {
+            if self::want("sem") && g != want {
                 Some(Fail { case: case.into(), expected: format!("{want:?}"), actual: format!("{g:?}") })
             } else {
                 None
@@ -1770,7 +1797,7 @@ fn case_lex(case: &str) -> Option<Fail> {
         // the only requirement there: no panic
         tick();
         return match quiet(|| SymbolicBDD::tokenize(&mut case.as_bytes(), None).map(|_| ())) {
-            Err(p) => Some(Fail { case: case.into(), expected: "tokens or Err, never a panic".into(), actual: p }),
+            Err(p) => if self::want("panic") { Some(Fail { case: case.into(), expected: "tokens or Err, never a panic".into(), actual: p }) } else { None },
             Ok(_) => None,
         };
     }
@@ -1778,8 +1805,9 @@ fn case_lex(case: &str) -> Option<Fail> {
     tick();
     let got = quiet(|| SymbolicBDD::tokenize(&mut case.as_bytes(), None));
     match (got, want) {
-        (Err(p), w) => Some(Fail { case: case.into(), expected: format!("{w:?} (never a panic)"), actual: p }),
+        (Err(p), w) => if self::want("panic") { Some(Fail { case: case.into(), expected: format!("{w:?} (never a panic)"), actual: p }) } else { None },
         (Ok(Err(_)), Err(_)) => None,
+        (Ok(_), _) if !self::want("sem") => None,
         (Ok(Err(e)), Ok(w)) => Some(Fail { case: case.into(), expected: format!("{w:?}"), actual: format!("Err({e})") }),
         (Ok(Ok(g)), w) => {
             let g: Vec<String> = g.iter().map(tok_s).collect();
@@ -1856,8 +1884,8 @@ fn case_index(case: &str) -> Option<Fail> {
     };
     tick();
     let (b1, p1) = match with {
-        Err(p) => return Some(Fail { case: case.into(), expected: "evaluation under the ordering".into(), actual: p }),
-        Ok(Err(e)) => return Some(Fail { case: case.into(), expected: "accepted".into(), actual: e.to_string() }),
+        Err(p) => return if want("panic") { Some(Fail { case: case.into(), expected: "evaluation under the ordering".into(), actual: p }) } else { None },
+        Ok(Err(e)) => return if want("accept") { Some(Fail { case: case.into(), expected: "accepted".into(), actual: e.to_string() }) } else { None },
         Ok(Ok(x)) => x,
     };
     let mut vars = vec![];
@@ -1865,25 +1893,26 @@ fn case_index(case: &str) -> Option<Fail> {
     support_named(&b1, &mut vars);
     for row in 0..(1usize << vars.len()) {
         let asg = |n: &str| vars.iter().position(|x| x == n).map_or(false, |p| (row >> p) & 1 == 1);
-        if eval_named(&b0, &asg) != eval_named(&b1, &asg) {
+        if want("sem") && eval_named(&b0, &asg) != eval_named(&b1, &asg) {
             return Some(Fail { case: case.into(), expected: "same function of the same names".into(), actual: format!("differs at row {row} of {vars:?}") });
         }
     }
-    if !robdd_named(&b1, None) {
+    if want("shape") && !robdd_named(&b1, None) {
         return Some(Fail { case: case.into(), expected: "ordered by the given ordering".into(), actual: format!("{b1:?}") });
     }
     let idx = quiet(|| p1.free_vars.iter().map(|v| p1.to_free_index(v)).collect::<Vec<_>>());
     match idx {
-        Err(p) => Some(Fail { case: case.into(), expected: "column index for every free variable".into(), actual: p }),
-        Ok(ix) if ix != (0..p1.free_vars.len()).collect::<Vec<_>>() => Some(Fail { case: case.into(), expected: "free variable i has column i".into(), actual: format!("{ix:?} for {:?}", p1.free_vars) }),
+        Err(p) => if want("panic") || want("vars") { Some(Fail { case: case.into(), expected: "column index for every free variable".into(), actual: p }) } else { None },
+        Ok(ix) if want("vars") && ix != (0..p1.free_vars.len()).collect::<Vec<_>>() => Some(Fail { case: case.into(), expected: "free variable i has column i".into(), actual: format!("{ix:?} for {:?}", p1.free_vars) }),
         _ => None,
     }
 }
 
 fn search_index(budget: usize, seed: u64) -> Option<Fail> {
-    let forms = ["a", "a & b", "b | a", "exists b # (a & b) | c", "c ^ a", "[a, c] = 1", "forall a # a | b", "lfp X # (a | X)"];
+    let forms = ["a", "a & b", "b | a", "exists b # (a & b) | c", "c ^ a", "[a, c] = 1", "forall a # a | b", "lfp X # (a | X)",
+        "exists x, y # ((x & a) | (y & b))", "forall y, x # ((x | a) & (y | b))", "exists c, X # (lfp X # c) | X"];
     let ords = ["x,a", "a", "b,a", "c,b,a", "x,y,z", "a,x,b,y,c", "_,_,a", "b,_,a,_,c", "X,a", "a,a,b", "c",
-        "b:1,a:0", "x:5,y:3", "c:4,a:2,b:0", "a:7,x:1", "b:3,c:0"];
+        "b:1,a:0", "x:5,y:3", "c:4,a:2,b:0", "a:7,x:1", "b:3,c:0", "y,x", "b,a,y,x", "x,b,y,a", "X,c"];
     for f in forms {
         for o in ords {
             if let Some(x) = case_index(&format!("{o}|{f}")) {
